@@ -137,6 +137,10 @@ def decide(pid, tier, seed, t0, cfg, claimed, deps, functions, unsupported, assu
         if ob.meta.get('missing_function'):
             undecided.append((ob, 'function under contract is missing or renamed'))
             continue
+        if ob.meta.get('untracked'):
+            # the clause mentions a value the engine could not track on this path (e.g. a renamed local): never a violation
+            undecided.append((ob, 'clause could not be evaluated on the tracked state (untracked value / renamed local)'))
+            continue
         if st == 'sat':
             refuted_names.add(ob.name)
             continue
